@@ -142,7 +142,7 @@ func (h *harness) run() {
 		h.fl = append(h.fl,
 			&flavour{name: "gcc", compiler: "gcc", flags: []string{"-O2"}},
 			&flavour{name: "gccnoarch", compiler: "gcc", flags: []string{"-O2", "-DWUFFS_CONFIG__AVOID_CPU_ARCH"}},
-			&flavour{name: "vg", compiler: "gcc", flags: []string{"-O1", "-g"}})
+			&flavour{name: "vg", compiler: "gcc", flags: []string{"-O1", "-g", "-gdwarf-4"}})
 	}
 	pflags := func(extra ...string) []string {
 		return append([]string{"-O0", "-DC09_PROBE_ONLY", "-DC09_STRUCTS_INC=\"" + probeInc + "\""}, extra...)
